@@ -65,14 +65,17 @@ Definition unitvec_norm1 (w : T) : option (T * T) :=
   let n := norm1 w in if leb O (thv (k_unit K)) n then Some (w/n, n) else None.
 
 (* unittwist_norm on a twist that is already known not to be (numerically) zero: (S / th, th) *)
+(* fix 3bd9c1c: in the irrotational branch the sub-threshold rotational part is zeroed (S = r_[v, 0, 0, 0]) before S / th *)
 Definition unittwist_norm (tw : V6 T) : V6 T * T :=
   let '(v0,v1,v2,w0,w1,w2) := tw in
-  let th := if iszerovec3 (w0,w1,w2) then norm3 O (v0,v1,v2) else norm3 O (w0,w1,w2) in
-  ((v0/th, v1/th, v2/th, w0/th, w1/th, w2/th), th).
+  if iszerovec3 (w0,w1,w2)
+  then let th := norm3 O (v0,v1,v2) in ((v0/th, v1/th, v2/th, 0/th, 0/th, 0/th), th)
+  else let th := norm3 O (w0,w1,w2) in ((v0/th, v1/th, v2/th, w0/th, w1/th, w2/th), th).
 Definition unittwist2_norm (tw : V3 T) : V3 T * T :=
   let '(v0,v1,w) := tw in
-  let th := if iszero w then norm2 (v0,v1) else abs_ O w in
-  ((v0/th, v1/th, w/th), th).
+  if iszero w
+  then let th := norm2 (v0,v1) in ((v0/th, v1/th, 0/th), th)
+  else let th := abs_ O w in ((v0/th, v1/th, w/th), th).
 
 (* ---------------- transformsNd.py ---------------- *)
 Definition fro33 (A : M33 T) : T :=
